@@ -34,9 +34,10 @@ func init() {
 			"conc: phases of 8-32 goroutines submitting/reading while one head change is imported and a sampler takes snapshots; non-trivial = distinct completion order. " +
 			"lin: concurrent add/get/status histories per (sender, nonce) slot checked for linearizability against a register model.",
 		Legs: func(tier string) []fw.Leg {
-			to := 45 * time.Minute
+			// generous watchdogs (a loaded machine can be 20-30x slower); firing is inconclusive
+			to := 4 * time.Hour
 			if tier == "thorough" {
-				to = 3 * time.Hour
+				to = 24 * time.Hour
 			}
 			return []fw.Leg{
 				{Name: "seq", Variant: "plain", Batches: 16, Timeout: to},
@@ -44,8 +45,8 @@ func init() {
 				{Name: "lin", Variant: "race", Batches: 8, Timeout: to},
 			}
 		},
-		Run:  run,
-		Gate: gate,
+		Run:         run,
+		Gate:        gate,
 		AnchorFiles: []string{"core/tx_pool.go", "core/tx_list.go", "core/tx_journal.go", "core/state/managed_state.go", "core/tx_pool_verif.go"},
 		Assumptions: []string{
 			"the yardstick for 'chain nonce' and 'balance' is the state the pool itself currently works against (reported by the H3 snapshot under pool.mu); the pool follows the chain asynchronously and 'the pool has processed head X' is decided from those state values (unique coinbase per generated block), never by waiting",
